@@ -71,12 +71,30 @@ def shard(p):
                     reqs.append({"op": "query", "q": q, "describe": True})
                     meta.append((f, q, False))
         if p.get("adjacent"):
+            # interference: sub-phrases of the facts' own words (one word dropped; a repeated word dropped altogether), asked on the
+            # same database object. They are not judged themselves (they are nobody's "own words"); they are there so that whatever
+            # the database remembers about word SETS meets the full phrase afterwards (seed C16-f)
+            extra = set()
+            for f in p["facts"]:
+                toks = f["tokens"]
+                if len(toks) < 3 or toks[0][0].isdigit():
+                    continue
+                for w in set(toks):
+                    if toks.count(w) > 1:
+                        extra.add(" ".join(t for t in toks if t != w))
+                if len(toks) <= 6:
+                    for i in range(len(toks)):
+                        sub_ = toks[:i] + toks[i + 1:]
+                        if not sub_[0][0].isdigit():
+                            extra.add(" ".join(sub_))
+            own = {m[1] for m in meta}
+            pre = [({"op": "query", "q": q, "describe": True}, (None, q, False)) for q in sorted(extra - own)]
             # near-duplicate phrases next to each other, ascending and then descending: anything the database remembers from one
             # lookup to the next (a memo keyed on a prefix, a case fold or a hash of the phrase; seeds C16-c, C14-c) is asked the
             # most confusable question right afterwards
             order = sorted(range(len(reqs)), key=lambda i: meta[i][1])
             order = order + order[::-1]
-            reqs, meta = [reqs[i] for i in order], [meta[i] for i in order]
+            reqs, meta = [x[0] for x in pre] + [reqs[i] for i in order], [x[1] for x in pre] + [meta[i] for i in order]      # interference first
         for i in range(0, len(reqs), 2000):
             try:
                 reps = d.call_many(reqs[i:i + 2000], timeout=600)
@@ -85,6 +103,9 @@ def shard(p):
                 d.restart()
                 continue
             for j, ((f, q, own_order), rep) in enumerate(zip(meta[i:i + 2000], reps)):
+                if f is None:
+                    acc.count("interference_queries_not_judged")
+                    continue
                 acc.evaluations += 1
                 acc.nontriv(q)
                 acc.count("own_order" if own_order else "permuted_order")
